@@ -495,6 +495,68 @@ example : (addResults registry [(421, 421, "custom")] false).map (fun r => r.map
     some [(0, 99), (100, 199), (200, 299), (300, 349), (350, 399), (400, 449), (421, 421), (450, 469), (470, 499), (500, 999), (550, 550)] := by decide
 example : addResults registry [(200, 299, "again")] true = some registry := by decide
 
+/-! ## 7. Round 7 — where the message and the .sol file appear; option bits (semantic translation of the `&` tests) -/
+
+/-- the generated gating of `AppSolutionHandlerImpl::HandleSolution` equals the hand model, for every invocation context -/
+theorem C10_gen_app_gating (x : AppCtx) :
+    appGuard "write .sol" x = solFileWritten x ∧ appGuard "print message" x = messagePrinted x ∧
+    appGuard "print primal" x = primalPrinted x ∧ appGuard "print dual" x = dualPrinted x := by
+  have h0 := land_mask_decide x.wantsol 0
+  have h1 := land_mask_decide x.wantsol 1
+  have h2 := land_mask_decide x.wantsol 2
+  have h3 := land_mask_decide_eq x.wantsol 3
+  have e0 := land_mask_decide_eq x.wantsol 0
+  have e1 := land_mask_decide_eq x.wantsol 1
+  have e2 := land_mask_decide_eq x.wantsol 2
+  simp only [Nat.pow_zero, Nat.pow_one, Nat.reducePow] at h0 h1 h2 h3 e0 e1 e2
+  simp only [appGuard, Gen.StatusFlags.appTable, List.find?, solFileWritten, messagePrinted, primalPrinted, dualPrinted]
+  refine ⟨?_, ?_, ?_, ?_⟩ <;> simp [h0, h1, h2, h3, e0, e1, e2]
+
+/-- the steps of the handler are exactly these five, in this order (tripwire part: labels) -/
+theorem C10_gen_app_steps : Gen.StatusFlags.appTable.map (·.1) =
+    ["erase banner", "write .sol", "print message", "print primal", "print dual"] := by decide
+
+/-- under `-AMPL` the .sol file is always written and nothing is printed; stand-alone, the message is lost for the
+    user exactly when wantsol has bit 8 but not bit 1 -/
+theorem C10_message_delivery (x : AppCtx) :
+    (x.ampl = true → solFileWritten x = true ∧ messagePrinted x = false ∧ primalPrinted x = false ∧ dualPrinted x = false) ∧
+    ((solFileWritten x = false ∧ messagePrinted x = false) ↔
+      (x.ampl = false ∧ x.wantsol.testBit 0 = false ∧ x.wantsol.testBit 3 = true)) := by
+  unfold solFileWritten messagePrinted primalPrinted dualPrinted
+  cases x.ampl <;> cases x.wantsol.testBit 0 <;> cases x.wantsol.testBit 3 <;> simp
+example : solFileWritten { ampl := false, wantsol := 9 } = true ∧ messagePrinted { ampl := false, wantsol := 9 } = false := by decide
+example : solFileWritten { ampl := false, wantsol := 8 } = false ∧ messagePrinted { ampl := false, wantsol := 8 } = false := by decide
+example : solFileWritten { ampl := false, wantsol := 6 } = false ∧ messagePrinted { ampl := false, wantsol := 6 } = true ∧
+          primalPrinted { ampl := false, wantsol := 6 } = true ∧ dualPrinted { ampl := false, wantsol := 6 } = true := by decide
+example : solFileWritten { ampl := true, wantsol := 0 } = true := by decide
+
+/-- `need_ray_primal()` / `need_ray_dual()` are bit 1 / bit 2 of option alg:rays, for every option value -/
+theorem C10_gen_ray_bits (rays : Nat) :
+    Gen.StatusFlags.needRayPrimal rays = rayPrimalOfOption rays ∧ Gen.StatusFlags.needRayDual rays = rayDualOfOption rays := by
+  have h0 := land_mask_decide rays 0
+  have h1 := land_mask_decide rays 1
+  simp only [Nat.pow_zero, Nat.pow_one] at h0 h1
+  unfold Gen.StatusFlags.needRayPrimal Gen.StatusFlags.needRayDual rayPrimalOfOption rayDualOfOption
+  rw [Nat.and_comm 1 rays, Nat.and_comm 2 rays]
+  exact ⟨h0, h1⟩
+
+/-- suffixes as a function of the *option value*: `.unbdd` ⇔ bit 1 of alg:rays ∧ code in 300–399 ∪ 450–469,
+    `.dunbdd` ⇔ bit 2 ∧ code in 200–299 ∪ 450–469 -/
+theorem C10_ray_suffixes_by_option (rays : Nat) (a : Answer)
+    (hp : a.rayPrimalOpt = Gen.StatusFlags.needRayPrimal rays) (hd : a.rayDualOpt = Gen.StatusFlags.needRayDual rays) :
+    ((extras a).unbddSuffix = true ↔ (rays.testBit 0 = true ∧
+      (documented a.code = .unboundedFeas ∨ documented a.code = .unboundedNoFeas ∨ documented a.code = .limitInfUnb))) ∧
+    ((extras a).dunbddSuffix = true ↔ (rays.testBit 1 = true ∧
+      (documented a.code = .infeasible ∨ documented a.code = .limitInfUnb))) := by
+  have hb := C10_gen_ray_bits rays
+  rw [hb.1] at hp; rw [hb.2] at hd
+  unfold rayPrimalOfOption at hp; unfold rayDualOfOption at hd
+  rw [C10_unbdd_suffix_iff, C10_dunbdd_suffix_iff, hp, hd]
+  exact ⟨Iff.rfl, Iff.rfl⟩
+example : Gen.StatusFlags.needRayPrimal 1 = true ∧ Gen.StatusFlags.needRayDual 1 = false ∧
+          Gen.StatusFlags.needRayPrimal 2 = false ∧ Gen.StatusFlags.needRayDual 2 = true ∧
+          Gen.StatusFlags.needRayPrimal 3 = true ∧ Gen.StatusFlags.needRayDual 0 = false := by decide
+
 /-! ## non-vacuity (concrete instances; named so that a failure is attributed to them) -/
 theorem C10_witness_solved : isProblemSolved 0 = true ∧ isProblemSolved 99 = true ∧ isProblemSolved 100 = false := by decide
 theorem C10_witness_ranges : classify 402 = .limitFeas ∧ classify 1000 = .unclassified ∧ classify (-1) = .unclassified := by decide
